@@ -261,7 +261,9 @@ def r3(P: Project, R: Report) -> None:
             return "write:direct"
         return None
 
-    an, out = run_paths(pm.node, event_of=event_of)
+    from ..summaries import fallible_except_contained
+
+    an, out = run_paths(pm.node, event_of=event_of, fallible_pred=fallible_except_contained(P, pm))
     R.paths += len(out.ret) + len(out.normal) + len(out.exc)
     gate_lit = f"self.batch_processor.can_process_batch({data})"
     rejected = [(st, n) for st, n in out.ret if f"not {gate_lit}" in st.lits] + [(st, None) for st in out.normal if f"not {gate_lit}" in st.lits]
@@ -272,6 +274,10 @@ def r3(P: Project, R: Report) -> None:
         ok = len(writes) == 1 and not routes and "create_batch_rejection_error" in writes[0]
         R.ob("R3", "rejected batch: one error write, nothing routed", ok, f"{pm.module.rel}:{getattr(node, 'lineno', pm.node.lineno)}",
              f"events on the reject path: {list(st.events)}", sample=f"R3 {pm.qual}: ¬can_process_batch → {list(st.events)} → return")
+    # an exception raised on the reject branch before the error is written means the batch is neither delivered nor answered
+    lost = [(t, getattr(n, "lineno", 0), ast.unparse(n)[:50]) for st, t, n in out.exc if f"not {gate_lit}" in st.lits and not any(e.startswith("write:") for e in st.events)]
+    R.ob("R3", "nothing on the reject branch can raise before the -32600 error is written", not lost, f"{pm.module.rel}:{lost[0][1] if lost else pm.node.lineno}",
+         f"fallible operations before the error write: {sorted(set(lost))[:3]} — for some batch contents the rejection is never sent")
     # escaping exceptions on the reject path would skip the return but also route nothing; paths that pass the gate:
     passed = [st for st, _n in out.ret if gate_lit in st.lits] + [st for st in out.normal if gate_lit in st.lits]
     R.need(passed, "anchor: no path passes the gate")
